@@ -324,16 +324,10 @@ func (sc *collection) doBuild(ctx context.Context) (Provider, error) {
 	default:
 	}
 
-	var err error
+	// The root scope's initialization functions may depend on singletons, so
+	// they run after the singletons have been created (Phase 7).
 	rootCtx := context.Background()
-	p.rootScope, err = newScope(p, nil, rootCtx, nil)
-	if err != nil {
-		return nil, &BuildError{
-			Phase:   "scope-creation",
-			Details: "failed to create root scope",
-			Cause:   err,
-		}
-	}
+	p.rootScope = newUninitializedScope(p, nil, rootCtx, nil)
 
 	// Phase 6: Create singletons with context propagation
 	if err := p.createAllSingletonsWithContext(ctx); err != nil {
@@ -350,6 +344,24 @@ func (sc *collection) doBuild(ctx context.Context) (Provider, error) {
 		return nil, &BuildError{
 			Phase:   "singleton-creation",
 			Details: "failed to initialize singletons",
+			Cause:   err,
+		}
+	}
+
+	// Phase 7: Run the root scope's initialization functions
+	if err := p.rootScope.initialize(); err != nil {
+		closeErr := p.Close()
+		if closeErr != nil {
+			return nil, &BuildError{
+				Phase:   "cleanup",
+				Details: "failed to clean up partially created provider",
+				Cause:   closeErr,
+			}
+		}
+
+		return nil, &BuildError{
+			Phase:   "scope-creation",
+			Details: "failed to create root scope",
 			Cause:   err,
 		}
 	}
